@@ -11,7 +11,7 @@ import ast
 
 class Loop:
     def __init__(self, inv=(), ghost=None, ghost_update=None, decreases=None, index="_k", kinds=None, keep=(),
-                 heap=None, havoc_hooks=(), mode="cut"):
+                 heap=None, havoc_hooks=(), mode="cut", step=(), exit=()):
         self.mode = mode  # "cut": invariant-based loop cut; "step": one iteration from the (arbitrary) entry state
         self.inv = list(inv)
         self.ghost = dict(ghost or {})
@@ -22,6 +22,11 @@ class Loop:
         self.keep = set(keep)
         self.heap = dict(heap or {})
         self.havoc_hooks = list(havoc_hooks)
+        # step clauses: proved after one execution of the body from an arbitrary state satisfying invariant and guard;
+        # `pre_<local>` is the local's value at the start of that iteration.  exit clauses: proved from invariant and
+        # negated guard.  Neither is assumed anywhere (they are conclusions about the loop, not part of the cut).
+        self.step = list(step)
+        self.exit = list(exit)
 
     def invariants(self):
         out = []
